@@ -55,10 +55,10 @@ type lockAnalysis struct {
 	// results per function (entry level 0)
 	accesses map[*ast.FuncDecl][]lockAccess
 	calls    map[*ast.FuncDecl][]lockCallSite
-	locks    map[*ast.FuncDecl]bool                // function acquires the mutex itself
-	ownReads map[*types.Func]map[*types.Var]bool   // fields read under the function's own lock
+	locks    map[*ast.FuncDecl]bool              // function acquires the mutex itself
+	ownReads map[*types.Func]map[*types.Var]bool // fields read under the function's own lock
 	declOf   map[*types.Func]*ast.FuncDecl
-	unpaired []lockAccess // unlock without lock etc. (reported)
+	unpaired []lockAccess                  // unlock without lock etc. (reported)
 	exitHeld map[*ast.FuncDecl][]token.Pos // returns with lock held and no deferred unlock
 }
 
